@@ -22,7 +22,7 @@ ASSUMPTIONS = ['flow sizes are multiples of the MSS (512)', 'completion is deman
                'the no-duplicate clause applies only to fault-free runs in which the path RTT was below the sender\'s RTO at '
                'every transmission']
 PROBES = ['sub_barepath', 'sub_blackhole', 'second_connection', 'deadline_after_last_segment', 'synchronous_path', 'real_path', 'tail_drop_on_path', 'sub_sink', 'sub_e2e', 'sub_clean', 'rto_fired', 'fast_retransmit', 'ack_lost', 'data_lost', 'duplicate_delivered',
-          'overtaken', 'cc_cubic', 'completed', 'inconclusive', 'first_segment_missing', 'sink_duplicate', 'sink_gap',
+          'overtaken', 'cc_cubic', 'completed', 'first_segment_missing', 'sink_duplicate', 'sink_gap',
           'clean_precondition_held', 'flow_without_a_full_segment', 'flow_without_finish_time', 'sink_recording_options', 'application_chunks_not_in_mss_units', 'flow_object_used_by_an_earlier_run']
 
 
